@@ -1002,15 +1002,16 @@ they live here so that `Props/C09.lean` holds property theorems only. -/
 
 /-- The disk bars material `m` from ever being trusted: its revocation is
 recorded in the tombstone file, or by a `StateRevoked`/`StateRemoved` marker in
-the state file — or the tombstone file is corrupt (then nothing is trusted). -/
+the state file — or the tombstone file does not decode (corrupt or zero
+length: then nothing is trusted). -/
 def Barred (d : Disk) (m : Nat) : Prop :=
-  d.tomb = .corrupt ∨ (∃ ms, d.tomb = .ok ms ∧ m ∈ ms) ∨
+  d.tomb.undecodable = true ∨ (∃ ms, d.tomb = .ok ms ∧ m ∈ ms) ∨
   (∃ tas, d.state = .ok tas ∧ ∃ ta ∈ tas, ta.key.mat = m ∧ isMarker ta.st = true)
 
 /-- every marker of the state file is backed by the tombstone file. -/
 def MarkersCovered (d : Disk) : Prop :=
   ∀ tas, d.state = .ok tas → ∀ ta ∈ tas, isMarker ta.st = true →
-    d.tomb = .corrupt ∨ ∃ ms, d.tomb = .ok ms ∧ ta.key.mat ∈ ms
+    d.tomb.undecodable = true ∨ ∃ ms, d.tomb = .ok ms ∧ ta.key.mat ∈ ms
 
 /-- Read assumption of the `_partial` permanence theorems: the state file is
 not lost (read fault / corruption) while it holds the only record of a
@@ -1019,6 +1020,7 @@ corruption and any fetched data are unrestricted. -/
 def EvOK (s : Sys) : Ev → Prop
   | .run _ fl _ => fl.stateRead = true → MarkersCovered s.disk
   | .damage .state => MarkersCovered s.disk
+  | .damage .stateEmpty => MarkersCovered s.disk
   | _ => True
 
 def HistOK (P : Params) (cfg : List Key) : Sys → List Ev → Prop
